@@ -159,8 +159,11 @@ func TestVerifFinality(t *testing.T) {
 			stop := false
 			pm := vTry(func() {
 				switch o.Op {
-				case "Add", "AddOrphan", "AddWrongNum":
+				case "Add", "AddOrphan", "AddWrongNum", "AddNoDigest":
 					hd := vstHeader(w.h(o.P), o.N, o.B, o.Prim, o.Hr, uint64(1000+o.N))
+					if o.Op == "AddNoDigest" {
+						hd = types.NewHeader(hd.ParentHash, hd.StateRoot, hd.ExtrinsicsRoot, hd.Number, types.NewDigest())
+					}
 					blk := &types.Block{Header: *hd, Body: types.Body{}}
 					err := bs.AddBlockWithArrivalTime(blk, base.Add(time.Duration(o.Arr)*time.Second))
 					res.Cmp()
